@@ -30,6 +30,11 @@ type StructCase struct {
 	// Twice (entry VStruct only): every rule set is registered twice for its target - first a
 	// decoy set, then the real one, which replaces it (SetRule stores the set given last)
 	Twice bool `json:"twice,omitempty"`
+	// LateFill (entry VStruct only, not with Twice): every rule set is handed to SetRule as an empty rule map
+	// (valid.NewRule()) and filled afterwards, before Valid - a rule map is a Go map, the validator sees it live
+	LateFill bool `json:"latefill,omitempty"`
+	// fm: the function table a prepared history call hands to StructForFns (calls_test.go)
+	fm valid.Name2FnMap
 	// NoModel: the source is something the entry point turns down (a typed nil pointer): only the
 	// metamorphic oracles apply
 	NoModel bool `json:"nomodel,omitempty"`
@@ -202,6 +207,7 @@ func (c *StructCase) walkCfg() model.WalkCfg {
 
 // call performs the validation through the exported API.
 func (c *StructCase) call(src interface{}) error {
+	var lateFills []func()
 	perType := func(vs *valid.VStruct) {
 		names := make([]string, 0, len(c.PerType))
 		for n := range c.PerType {
@@ -209,6 +215,16 @@ func (c *StructCase) call(src interface{}) error {
 		}
 		sort.Strings(names)
 		for _, n := range names {
+			if c.LateFill && !c.Twice {
+				rm, src := valid.NewRule(), c.PerType[n]
+				vs.SetRule(rm, c.typeToken(lib.Types[n], false))
+				lateFills = append(lateFills, func() {
+					for k, v := range src {
+						rm[k] = v
+					}
+				})
+				continue
+			}
 			vs.SetRule(toRM(c.PerType[n]), c.typeToken(lib.Types[n], false))
 		}
 	}
@@ -276,11 +292,22 @@ func (c *StructCase) call(src interface{}) error {
 	} else {
 		vs = valid.NewVStruct()
 	}
+	var fillLater []func()
 	if c.Unscoped != nil {
 		if c.Twice {
 			vs.SetRule(decoyOf(c.Unscoped))
 		}
-		vs.SetRule(toRM(c.Unscoped))
+		if c.LateFill && !c.Twice {
+			rm, src := valid.NewRule(), c.Unscoped
+			vs.SetRule(rm)
+			fillLater = append(fillLater, func() {
+				for k, v := range src {
+					rm[k] = v
+				}
+			})
+		} else {
+			vs.SetRule(toRM(c.Unscoped))
+		}
 	}
 	if c.Twice {
 		for n, rm := range c.PerType {
@@ -296,6 +323,9 @@ func (c *StructCase) call(src interface{}) error {
 	}
 	if c.LateReg != "" {
 		late()
+	}
+	for _, f := range append(fillLater, lateFills...) {
+		f()
 	}
 	return vs.Valid(src)
 }
